@@ -209,6 +209,9 @@ def compute_simple_persistence(
 
     pixel_diff = pixel_array - pixel_start
 
+    # Charge released by the clipped traps of all species goes back into the pixels
+    output_pixel = pixel_array.copy()
+
     for i, trapped_charge in enumerate(all_trapped_charge):
         if trap_capacities is None:
             fwc = None
@@ -218,7 +221,7 @@ def compute_simple_persistence(
         densities = trap_densities[i] * np.ones(trapped_charge.shape)
         available_traps = pixel_array * densities
 
-        trapped_charge_clipped, output_pixel = clip_trapped_charge(
+        trapped_charge_clipped, pixel_with_released_charge = clip_trapped_charge(
             trapped_charge=trapped_charge,
             pixel=pixel_array,
             available_traps=available_traps,
@@ -226,6 +229,7 @@ def compute_simple_persistence(
             trap_capacities=fwc,
         )
         all_trapped_charge[i] = trapped_charge_clipped
+        output_pixel += pixel_with_released_charge - pixel_array
 
     return output_pixel, all_trapped_charge
 
@@ -407,6 +411,9 @@ def compute_persistence(
 
     pixel_diff = pixel_array - pixel_start
 
+    # Charge released by the clipped traps of all species goes back into the pixels
+    output_pixel = pixel_array.copy()
+
     for i, trapped_charge in enumerate(all_trapped_charge):
         if trap_capacities_2d is None:
             fwc = None
@@ -416,7 +423,7 @@ def compute_persistence(
         densities = trap_densities_2d * trap_proportions[i]
         available_traps = pixel_array * densities
 
-        trapped_charge_clipped, output_pixel = clip_trapped_charge(
+        trapped_charge_clipped, pixel_with_released_charge = clip_trapped_charge(
             trapped_charge=trapped_charge,
             pixel=pixel_array,
             available_traps=available_traps,
@@ -424,6 +431,7 @@ def compute_persistence(
             trap_capacities=fwc,
         )
         all_trapped_charge[i] = trapped_charge_clipped
+        output_pixel += pixel_with_released_charge - pixel_array
 
     return output_pixel, all_trapped_charge
 
